@@ -23,6 +23,8 @@ namespace c07
         // construction (copy or move) whose SOURCE is one of the watched originals
         const void* watch[4] = {nullptr, nullptr, nullptr, nullptr};
         long ctor_from_watched = 0;
+        // any use of a watched original as the source of a move / of a copy (construction or assignment)
+        long move_from_watched = 0, copy_from_watched = 0;
         // lifetime errors (first one is kept as text)
         long errors = 0;
         std::string first_error;
@@ -42,10 +44,15 @@ namespace c07
         {
             if (live.erase(p) == 0) err("destruction of a payload that is not alive (double destruction or never constructed)");
         }
-        void source(const void* p, const char* what)
+        void source(const void* p, const char* what, bool is_move = false, bool is_ctor = true)
         {
             if (!is_live(p)) err(std::string(what) + " from a payload object that is no longer alive (dangling source)");
-            for (const void* w : watch) if (w != nullptr && w == p) ++ctor_from_watched;
+            for (const void* w : watch)
+                if (w != nullptr && w == p)
+                {
+                    if (is_ctor) ++ctor_from_watched;
+                    if (is_move) ++move_from_watched; else ++copy_from_watched;
+                }
         }
         void target(const void* p, const char* what)
         {
@@ -55,6 +62,7 @@ namespace c07
         {
             copy_ctor = move_ctor = copy_assign = move_assign = value_ctor = dtor = 0;
             ctor_from_watched = 0;
+            move_from_watched = copy_from_watched = 0;
         }
         long special_calls() const { return copy_ctor + move_ctor + copy_assign + move_assign; }
     };
@@ -70,7 +78,7 @@ namespace c07
         Counted(const Counted& o) : v(0)
         {
             registry& r = registry::get();
-            r.source(&o, "copy construction");
+            r.source(&o, "copy construction", false, true);
             v = o.v;
             r.born(this);
             ++r.copy_ctor;
@@ -78,7 +86,7 @@ namespace c07
         Counted(Counted&& o) noexcept : v(0)
         {
             registry& r = registry::get();
-            r.source(&o, "move construction");
+            r.source(&o, "move construction", true, true);
             v = o.v;
             o.v = MOVED;
             r.born(this);
@@ -87,7 +95,7 @@ namespace c07
         Counted& operator=(const Counted& o)
         {
             registry& r = registry::get();
-            r.source(&o, "copy assignment");
+            r.source(&o, "copy assignment", false, false);
             r.target(this, "copy assignment");
             v = o.v;
             ++r.copy_assign;
@@ -96,7 +104,7 @@ namespace c07
         Counted& operator=(Counted&& o) noexcept
         {
             registry& r = registry::get();
-            r.source(&o, "move assignment");
+            r.source(&o, "move assignment", true, false);
             r.target(this, "move assignment");
             int t = o.v;
             if (&o != this) o.v = MOVED;
@@ -124,7 +132,7 @@ namespace c07
         MoveOnly(MoveOnly&& o) noexcept : v(0)
         {
             registry& r = registry::get();
-            r.source(&o, "move construction");
+            r.source(&o, "move construction", true, true);
             v = o.v;
             o.v = MOVED;
             r.born(this);
@@ -133,7 +141,7 @@ namespace c07
         MoveOnly& operator=(MoveOnly&& o) noexcept
         {
             registry& r = registry::get();
-            r.source(&o, "move assignment");
+            r.source(&o, "move assignment", true, false);
             r.target(this, "move assignment");
             int t = o.v;
             if (&o != this) o.v = MOVED;
